@@ -188,6 +188,12 @@ func (v *Verifier) lookupType(name string) types.Type {
 	case "[]byte":
 		return types.NewSlice(types.Typ[types.Uint8])
 	}
+	if strings.HasPrefix(name, "*") {
+		if t := v.lookupType(name[1:]); t != nil {
+			return types.NewPointer(t)
+		}
+		return nil
+	}
 	if i := strings.LastIndex(name, "."); i >= 0 {
 		pk, tn := name[:i], name[i+1:]
 		for _, p := range v.prog.AllPackages() {
